@@ -132,6 +132,8 @@ pub enum Clause {
     StaleValue,
     Misrouted,
     ClosureOutsideHold,
+    /// payload reached through a data reference that a scoped closure handed back to its caller
+    EscapedAccess,
     // C03
     AcquireWhileHolding,
     KeyBackWhileHolding,
